@@ -111,8 +111,9 @@ def run(ctx):
                  "`gwf cancel` without targets and without --force does not ask for confirmation (aborting on decline) before cancelling", cc.where)
 
     ctx.structural_or_witness(r2, structural_r2, witness, con, both=True)
-    from .shared import rule_name_selection
+    from .shared import rule_name_selection, rule_flag_default
     rule_name_selection(ctx, r2, "the targets of `gwf cancel PATTERN...`")
+    rule_flag_default(ctx, r2, "gwf.plugins.cancel:cancel", "--force", "cancelling every target would never ask for confirmation")
     from .evalhelpers import eval_cancel
     from ..symeval import tok
     res, tb_cancel = eval_cancel(ctx)
